@@ -573,7 +573,8 @@ def schedule_part(tier, seed):
     if tier == "quick":
         plan = [("layer4", "thread", 1), ("layer6", "thread", 0), ("layer4", "process", 0), ("step", "thread", 0)]
     else:
-        plan = [("layer4", "thread", 2), ("layer6", "thread", 1), ("layer4", "process", 1), ("layer6", "process", 0),
+        # bound 2 on the 2-gate layer would be ~3e5 executions (hours); the thorough tier completes bound 1 for every driver
+        plan = [("layer4", "thread", 1), ("layer6", "thread", 1), ("layer4", "process", 1), ("layer6", "process", 1),
                 ("step", "thread", 1), ("step", "process", 0)]
     for driver, flavour, bound in plan:
         orders = set()
